@@ -610,8 +610,6 @@ fn run_iters<Q: Queue>(c: &HugeCase) -> R {
         let mut c2 = q.clone();
         {
             let it = std::cell::RefCell::new(c2.iter_mut());
-            let has_back = Q::iter_mut_back(&mut it.borrow_mut()).is_some() && false;
-            let _ = has_back;
             let kept: std::cell::RefCell<Vec<(&mut Key, &mut Prio)>> = std::cell::RefCell::new(Vec::with_capacity(n));
             let mut next = || {
                 it.borrow_mut().next().map(|x| {
